@@ -131,9 +131,10 @@ struct WglResult {
   std::vector<int> best_prefix; // longest linearization prefix found (indices into ops)
 };
 
-// Model: struct with `using State = ...` (copyable, operator==), `bool apply(State&, const OpRec&) const`.
+// Model: struct with `using State = ...` (copyable), `bool apply(State&, const OpRec&) const` and
+// `static void serialize(const State&, std::string& append_to)` (injective).
 template <class Model>
-WglResult wgl_check(const History& h, const Model& model, const typename Model::State& init, uint64_t budget = 2000000) {
+WglResult wgl_check(const History& h, const Model& model, const typename Model::State& init, uint64_t budget = 300000) {
   using State = typename Model::State;
   const auto& ops = h.ops;
   const int n = (int)ops.size();
@@ -144,27 +145,35 @@ WglResult wgl_check(const History& h, const Model& model, const typename Model::
     res.verdict = V_INCONCLUSIVE;
     return res;
   }
+  // candidate order: by invocation time (the real linearization order is usually close to it)
+  std::vector<int> order(n);
+  for (int i = 0; i < n; ++i)
+    order[i] = i;
+  std::sort(order.begin(), order.end(), [&](int x, int y) { return ops[x].call < ops[y].call; });
   std::vector<uint64_t> pred(n, 0);
   for (int i = 0; i < n; ++i)
     for (int j = 0; j < n; ++j)
       if (i != j && precedes(ops[j], ops[i], h.weak))
         pred[i] |= 1ull << j;
   const uint64_t full = n == 64 ? ~0ull : ((1ull << n) - 1);
-  std::unordered_map<uint64_t, std::vector<State>> memo;
+  // memo on (set of linearized operations, full model state): exact keys, no hash-collision pruning
+  std::unordered_set<std::string> memo;
   struct Frame {
     uint64_t done;
     State st;
-    int next;
+    int next; // position in `order`
   };
   std::vector<Frame> stack;
   std::vector<int> path;
   stack.push_back({0, init, 0});
+  std::string key;
   while (!stack.empty()) {
     Frame& f = stack.back();
     if (f.done == full)
       return res;
     bool descended = false;
-    for (int i = f.next; i < n; ++i) {
+    for (int pos = f.next; pos < n; ++pos) {
+      const int i = order[pos];
       if ((f.done >> i) & 1)
         continue;
       if ((pred[i] & ~f.done) != 0)
@@ -173,21 +182,15 @@ WglResult wgl_check(const History& h, const Model& model, const typename Model::
       if (!model.apply(s2, ops[i]))
         continue;
       uint64_t d2 = f.done | (1ull << i);
-      auto& seen = memo[d2];
-      bool dup = false;
-      for (auto& s : seen)
-        if (s == s2) {
-          dup = true;
-          break;
-        }
-      if (dup)
+      key.assign(reinterpret_cast<const char*>(&d2), sizeof d2);
+      Model::serialize(s2, key);
+      if (!memo.insert(key).second)
         continue;
-      seen.push_back(s2);
       if (++res.nodes > budget) {
         res.verdict = V_INCONCLUSIVE;
         return res;
       }
-      f.next = i + 1;
+      f.next = pos + 1;
       path.push_back(i);
       if (path.size() > res.best_prefix.size())
         res.best_prefix = path;
@@ -397,7 +400,10 @@ inline int scenario_main(int argc, char** argv, const ScenarioDef& def) {
       xrt::set_context(def.name, cfg.c_str(), args.seed, i);
       xrt::clear_violation();
       ExecOut out;
+      if (args.verbose && args.only >= 0 && (uint64_t)args.only == i)
+        xrt::set_trace(true);
       def.run(cfg, ctx, out);
+      xrt::set_trace(false);
       if (xrt::has_violation() && !out.violation) {
         const char* p = xrt_kind_property(xrt::violation_kind(), args.weak);
         out.fail(p, xrt::violation_kind(), xrt::violation_msg());
@@ -445,6 +451,7 @@ inline int scenario_main(int argc, char** argv, const ScenarioDef& def) {
            ",\"stale_sites\":%" PRIu64 ",\"spurious_cas\":%" PRIu64 ",\"atomics\":%" PRIu64 ",\"plains\":%" PRIu64
            ",\"fences\":%" PRIu64 ",\"race_checks\":%" PRIu64 ",\"heap_checks\":%" PRIu64 ",\"drain_episodes\":%" PRIu64
            ",\"solo_episodes\":%" PRIu64 ",\"solo_max_steps\":%" PRIu64 ",\"loc_overflow\":%" PRIu64
+           ",\"diag_atomic_races\":%" PRIu64
            ",\"strategies\":[%" PRIu64 ",%" PRIu64 ",%" PRIu64 ",%" PRIu64 "],\"counters\":{%s},\"samples\":[%s]}\n",
            def.name, cfg.c_str(), args.weak ? "weak" : "sc", args.seed, execs, nviol, inconclusive, hashes.size(),
            nontrivial.size(), st.episodes - before.episodes, st.steps - before.steps, st.switches - before.switches,
@@ -452,7 +459,8 @@ inline int scenario_main(int argc, char** argv, const ScenarioDef& def) {
            st.atomics - before.atomics, st.plains - before.plains, st.fences - before.fences,
            st.races_checked - before.races_checked, st.uaf_checks - before.uaf_checks,
            st.drain_episodes - before.drain_episodes, st.solo_episodes - before.solo_episodes, st.solo_max_steps,
-           st.loc_overflow - before.loc_overflow, st.strategy_count[0] - before.strategy_count[0],
+           st.loc_overflow - before.loc_overflow, st.diag_atomic_races - before.diag_atomic_races,
+           st.strategy_count[0] - before.strategy_count[0],
            st.strategy_count[1] - before.strategy_count[1], st.strategy_count[2] - before.strategy_count[2],
            st.strategy_count[3] - before.strategy_count[3], cj.c_str(), sj.c_str());
     if (!args.hashes_out.empty()) {
